@@ -47,7 +47,7 @@ func (c *awCtx) bad(pos token.Pos, format string, a ...interface{}) {
 	c.problems = append(c.problems, fmt.Sprintf("%s: %s", c.x.Fset.Position(pos), fmt.Sprintf(format, a...)))
 }
 
-func selCall(e ast.Expr) (recv, name string, call *ast.CallExpr) {
+func awSelCall(e ast.Expr) (recv, name string, call *ast.CallExpr) {
 	ce, ok := e.(*ast.CallExpr)
 	if !ok {
 		return "", "", nil
@@ -65,7 +65,7 @@ func selCall(e ast.Expr) (recv, name string, call *ast.CallExpr) {
 	return "?", se.Sel.Name, ce
 }
 
-func identName(e ast.Expr) string {
+func awIdent(e ast.Expr) string {
 	if id, ok := e.(*ast.Ident); ok {
 		return id.Name
 	}
@@ -74,42 +74,42 @@ func identName(e ast.Expr) string {
 
 // isTmpName: the expression denotes the temp file's name (a variable bound to tmp.Name(), or tmp.Name() itself)
 func (c *awCtx) isTmpName(e ast.Expr) bool {
-	if n := identName(e); n != "" && c.nameVars[n] {
+	if n := awIdent(e); n != "" && c.nameVars[n] {
 		return true
 	}
-	r, m, ce := selCall(e)
+	r, m, ce := awSelCall(e)
 	return ce != nil && r == c.tmpVar && c.tmpVar != "" && m == "Name"
 }
 
 // classify returns the steps a call expands to (kind, tgt) or nil when it is not a file operation.
 func (c *awCtx) classify(e ast.Expr) [][]string {
-	r, m, ce := selCall(e)
+	r, m, ce := awSelCall(e)
 	if ce == nil {
 		return nil
 	}
 	switch {
 	case r == "os" && m == "CreateTemp":
 		if len(ce.Args) == 2 {
-			dr, dm, dce := selCall(ce.Args[0])
-			c.dirOK = dce != nil && dr == "filepath" && dm == "Dir" && len(dce.Args) == 1 && identName(dce.Args[0]) == c.pathPar
+			dr, dm, dce := awSelCall(ce.Args[0])
+			c.dirOK = dce != nil && dr == "filepath" && dm == "Dir" && len(dce.Args) == 1 && awIdent(dce.Args[0]) == c.pathPar
 			// pattern: filepath.Base(path) + "<infix>*"
 			if be, ok := ce.Args[1].(*ast.BinaryExpr); ok && be.Op == token.ADD {
-				br, bm, bce := selCall(be.X)
+				br, bm, bce := awSelCall(be.X)
 				if lit, ok := be.Y.(*ast.BasicLit); ok && lit.Kind == token.STRING && bce != nil && br == "filepath" && bm == "Base" &&
-					len(bce.Args) == 1 && identName(bce.Args[0]) == c.pathPar {
+					len(bce.Args) == 1 && awIdent(bce.Args[0]) == c.pathPar {
 					c.pattern = strings.Trim(lit.Value, "\"`")
 				}
 			}
 		}
 		return [][]string{{"createTemp", "tmp"}}
 	case r == "os" && (m == "WriteFile"):
-		if len(ce.Args) >= 1 && identName(ce.Args[0]) == c.pathPar {
+		if len(ce.Args) >= 1 && awIdent(ce.Args[0]) == c.pathPar {
 			return [][]string{{"openTrunc", "dst"}, {"write", "dst"}, {"close", "dst"}}
 		}
 		c.bad(ce.Pos(), "os.WriteFile on something other than the path parameter")
 		return [][]string{{"openTrunc", "dst"}, {"write", "dst"}, {"close", "dst"}}
 	case r == "os" && m == "Rename":
-		if len(ce.Args) != 2 || !c.isTmpName(ce.Args[0]) || identName(ce.Args[1]) != c.pathPar {
+		if len(ce.Args) != 2 || !c.isTmpName(ce.Args[0]) || awIdent(ce.Args[1]) != c.pathPar {
 			c.bad(ce.Pos(), "os.Rename is not Rename(<temp name>, <path parameter>)")
 		}
 		return [][]string{{"rename", "tmp"}}
@@ -127,7 +127,7 @@ func (c *awCtx) classify(e ast.Expr) [][]string {
 	case r != "" && r == c.tmpVar:
 		switch m {
 		case "Write", "WriteString":
-			if len(ce.Args) != 1 || identName(ce.Args[0]) != c.dataPar {
+			if len(ce.Args) != 1 || awIdent(ce.Args[0]) != c.dataPar {
 				c.bad(ce.Pos(), "tmp.%s argument is not the data parameter", m)
 			}
 			return [][]string{{"write", "tmp"}}
@@ -146,9 +146,9 @@ func (c *awCtx) classify(e ast.Expr) [][]string {
 	return nil
 }
 
-func isErrNotNil(e ast.Expr) bool {
+func awIsErrNotNil(e ast.Expr) bool {
 	be, ok := e.(*ast.BinaryExpr)
-	return ok && be.Op == token.NEQ && identName(be.X) == "err" && identName(be.Y) == "nil"
+	return ok && be.Op == token.NEQ && awIdent(be.X) == "err" && awIdent(be.Y) == "nil"
 }
 
 // cleanupOf parses the body of an `if err != nil { ... }` block: clean-up calls then a return of a non-nil error.
@@ -168,14 +168,14 @@ func (c *awCtx) cleanupOf(b *ast.BlockStmt) (cl [][]string, ok bool) {
 				c.bad(s.Pos(), "error path does not end in a single `return <err>`")
 				return cl, false
 			}
-			if identName(s.Results[0]) == "err" {
+			if awIdent(s.Results[0]) == "err" {
 				return cl, true
 			}
-			if _, fn, ce := selCall(s.Results[0]); ce != nil && fn == c.failFn && c.failFn != "" && len(ce.Args) == 1 && identName(ce.Args[0]) == "err" {
+			if _, fn, ce := awSelCall(s.Results[0]); ce != nil && fn == c.failFn && c.failFn != "" && len(ce.Args) == 1 && awIdent(ce.Args[0]) == "err" {
 				return append(cl, c.failCl...), true
 			}
 			// fmt.Errorf("...: %w", err) is also a non-nil error
-			if r, fn, ce := selCall(s.Results[0]); ce != nil && r == "fmt" && fn == "Errorf" {
+			if r, fn, ce := awSelCall(s.Results[0]); ce != nil && r == "fmt" && fn == "Errorf" {
 				return cl, true
 			}
 			c.bad(s.Pos(), "error path returns something other than err / fail(err)")
@@ -220,7 +220,7 @@ func extractAtomic(x *X, fd *ast.FuncDecl) (steps []awStep, c *awCtx) {
 			}
 			// fail := func(err error) error { ... }
 			if fl, ok := s.Rhs[0].(*ast.FuncLit); ok && len(s.Lhs) == 1 {
-				c.failFn = identName(s.Lhs[0])
+				c.failFn = awIdent(s.Lhs[0])
 				cl, ok := c.cleanupOf(fl.Body)
 				if !ok {
 					c.bad(fl.Pos(), "unrecognised body of the clean-up closure")
@@ -229,8 +229,8 @@ func extractAtomic(x *X, fd *ast.FuncDecl) (steps []awStep, c *awCtx) {
 				continue
 			}
 			// name := tmp.Name()
-			if r, m, ce := selCall(s.Rhs[0]); ce != nil && r == c.tmpVar && c.tmpVar != "" && m == "Name" && len(s.Lhs) == 1 {
-				c.nameVars[identName(s.Lhs[0])] = true
+			if r, m, ce := awSelCall(s.Rhs[0]); ce != nil && r == c.tmpVar && c.tmpVar != "" && m == "Name" && len(s.Lhs) == 1 {
+				c.nameVars[awIdent(s.Lhs[0])] = true
 				continue
 			}
 			ks := c.classify(s.Rhs[0])
@@ -239,17 +239,17 @@ func extractAtomic(x *X, fd *ast.FuncDecl) (steps []awStep, c *awCtx) {
 				continue
 			}
 			if ks[0][0] == "createTemp" && len(s.Lhs) == 2 {
-				c.tmpVar = identName(s.Lhs[0])
+				c.tmpVar = awIdent(s.Lhs[0])
 			}
 			// does the statement bind err, and is it tested by the next statement?
 			bindsErr := false
 			for _, l := range s.Lhs {
-				if identName(l) == "err" {
+				if awIdent(l) == "err" {
 					bindsErr = true
 				}
 			}
 			if bindsErr && i+1 < len(list) {
-				if is, ok := list[i+1].(*ast.IfStmt); ok && is.Init == nil && isErrNotNil(is.Cond) && is.Else == nil {
+				if is, ok := list[i+1].(*ast.IfStmt); ok && is.Init == nil && awIsErrNotNil(is.Cond) && is.Else == nil {
 					cl, ok := c.cleanupOf(is.Body)
 					add(ks, ok, cl)
 					i++
@@ -259,7 +259,7 @@ func extractAtomic(x *X, fd *ast.FuncDecl) (steps []awStep, c *awCtx) {
 			add(ks, false, nil)
 		case *ast.IfStmt:
 			as, ok := s.Init.(*ast.AssignStmt)
-			if !ok || len(as.Rhs) != 1 || !isErrNotNil(s.Cond) || s.Else != nil {
+			if !ok || len(as.Rhs) != 1 || !awIsErrNotNil(s.Cond) || s.Else != nil {
 				c.bad(s.Pos(), "unrecognised if statement")
 				continue
 			}
@@ -270,7 +270,7 @@ func extractAtomic(x *X, fd *ast.FuncDecl) (steps []awStep, c *awCtx) {
 			}
 			bindsErr := false
 			for _, l := range as.Lhs {
-				if identName(l) == "err" {
+				if awIdent(l) == "err" {
 					bindsErr = true
 				}
 			}
@@ -288,7 +288,7 @@ func extractAtomic(x *X, fd *ast.FuncDecl) (steps []awStep, c *awCtx) {
 				c.bad(s.Pos(), "return before the end of the function")
 				continue
 			}
-			if len(s.Results) == 1 && identName(s.Results[0]) == "nil" {
+			if len(s.Results) == 1 && awIdent(s.Results[0]) == "nil" {
 				continue
 			}
 			// `return os.Rename(..)` / `return os.WriteFile(..)`: the error is handed to the caller = checked, no clean-up
@@ -306,10 +306,10 @@ func extractAtomic(x *X, fd *ast.FuncDecl) (steps []awStep, c *awCtx) {
 	return steps, c
 }
 
-// writeCalls lists the direct file-writing calls and the WriteFileAtomic calls inside a function body.
-func writeCalls(body ast.Node) (direct []string, atomic []*ast.CallExpr) {
+// awWriteCalls lists the direct file-writing calls and the WriteFileAtomic calls inside a function body.
+func awWriteCalls(body ast.Node) (direct []string, atomic []*ast.CallExpr) {
 	ast.Inspect(body, func(n ast.Node) bool {
-		r, m, ce := selCall0(n)
+		r, m, ce := awSelCallNode(n)
 		if ce == nil {
 			return true
 		}
@@ -324,14 +324,14 @@ func writeCalls(body ast.Node) (direct []string, atomic []*ast.CallExpr) {
 	return
 }
 
-func selCall0(n ast.Node) (string, string, *ast.CallExpr) {
+func awSelCallNode(n ast.Node) (string, string, *ast.CallExpr) {
 	if e, ok := n.(ast.Expr); ok {
-		return selCall(e)
+		return awSelCall(e)
 	}
 	return "", "", nil
 }
 
-func leanShape(steps []awStep) string {
+func awLeanShape(steps []awStep) string {
 	var sb strings.Builder
 	sb.WriteString("[")
 	for i, s := range steps {
@@ -379,7 +379,7 @@ func init() {
 			if !x.Assert("atomic:site:"+label, f != nil && f.Body != nil, "function %s.%s not found", pkg, fn) {
 				return false, nil
 			}
-			d, at := writeCalls(f.Body)
+			d, at := awWriteCalls(f.Body)
 			sort.Strings(d)
 			first := ""
 			if len(f.Type.Params.List) > 0 && len(f.Type.Params.List[0].Names) > 0 {
@@ -387,7 +387,7 @@ func init() {
 			}
 			ok := len(at) == 1 && len(at[0].Args) == 3
 			if ok && label == "notebook" {
-				ok = identName(at[0].Args[0]) == first
+				ok = awIdent(at[0].Args[0]) == first
 			}
 			if ok && label == "history" {
 				se, isSel := at[0].Args[0].(*ast.SelectorExpr)
@@ -401,14 +401,14 @@ func init() {
 		hOK, hDirect := site("internal/history", "Save", "history")
 		// saveToPersonalDatabase itself must not write either
 		if f := x.Func("internal/cli", "saveToPersonalDatabase"); f != nil && f.Body != nil {
-			d, at := writeCalls(f.Body)
+			d, at := awWriteCalls(f.Body)
 			x.Assert("atomic:site:notebook:outer", len(d) == 0 && len(at) == 0, "saveToPersonalDatabase writes by itself: %v", d)
 			nbDirect = append(nbDirect, d...)
 		}
 		// the whole history package has no other writer
 		hAll := []string{}
 		for _, f := range x.Pkg("internal/history") {
-			d, _ := writeCalls(f)
+			d, _ := awWriteCalls(f)
 			hAll = append(hAll, d...)
 		}
 		x.Assert("atomic:site:history:package", len(hAll) == 0, "internal/history writes directly: %v", hAll)
@@ -418,7 +418,7 @@ func init() {
 		var sb strings.Builder
 		sb.WriteString("import WtfModel.Model.AtomicWrite\nnamespace Wtf.Gen.AtomicWrite\nopen Wtf.AtomicWrite\n\n")
 		sb.WriteString("/-- utils.WriteFileAtomic, statement by statement: call, target, error tested?, calls on that error path -/\n")
-		fmt.Fprintf(&sb, "def writeFileAtomic : List ShapeStep := %s\n\n", leanShape(steps))
+		fmt.Fprintf(&sb, "def writeFileAtomic : List ShapeStep := %s\n\n", awLeanShape(steps))
 		fmt.Fprintf(&sb, "/-- the temp file is created in filepath.Dir(path) -/\ndef tempInTargetDir : Bool := %v\n\n", dirOK)
 		fmt.Fprintf(&sb, "/-- temp name = filepath.Base(path) ++ tempInfix ++ <random digits> -/\ndef tempInfix : String := %s\n\n", leanStr(infix))
 		fmt.Fprintf(&sb, "/-- cli.writePersonalDatabase writes the notebook with one utils.WriteFileAtomic(dbPath, ..) call -/\ndef notebookUsesAtomic : Bool := %v\n", nbOK)
